@@ -72,6 +72,10 @@ func genC08(t *rapid.T) *Case {
 				op = Op{K: "reg", URI: pick(t, procs, "proc")}
 			case x < 80:
 				op = Op{K: "unreg", N: uni(t, 2, "whichreg")}
+			case x < 88:
+				// meta procedures are served by the realm's meta session, whose messages take
+				// the same paths through broker and dealer as everybody else's
+				op = Op{K: "meta", URI: pick(t, []string{"wamp.session.count", "wamp.session.list", "wamp.registration.list", "wamp.subscription.list"}, "mproc"), N: 1 + uni(t, 6, "nmeta")}
 			default:
 				op = Op{K: "call", URI: pick(t, procs, "cproc"), N: 1 + uni(t, 8, "ncalls")}
 			}
@@ -94,6 +98,7 @@ type c08Actor struct {
 	regs  []wamp.ID
 	pendingSub map[wamp.ID]bool
 	pendingReg map[wamp.ID]bool
+	metaReqs   []wamp.ID
 }
 
 func (a *c08Actor) snapshot() []wamp.Message {
@@ -245,6 +250,14 @@ func execC08(t *testing.T, c *Case, trace bool) Verdict {
 					a.pendingReg[req] = true
 					a.mu.Unlock()
 					e.queue(s, &wamp.Register{Request: req, Options: wamp.Dict{"invoke": "first"}, Procedure: wamp.URI(op.URI)}, -1)
+				case "meta":
+					for i := 0; i < op.N; i++ {
+						req := s.NextReq()
+						a.mu.Lock()
+						a.metaReqs = append(a.metaReqs, req)
+						a.mu.Unlock()
+						e.queue(s, &wamp.Call{Request: req, Options: wamp.Dict{}, Procedure: wamp.URI(op.URI)}, -1)
+					}
 				case "call":
 					for i := 0; i < op.N; i++ {
 						callSeq[op.URI]++
@@ -380,6 +393,26 @@ func execC08(t *testing.T, c *Case, trace bool) Verdict {
 			}
 		}
 	}
+	// every meta procedure call was answered (the meta session is never the one that is stuck)
+	for _, a := range actors {
+		answered := map[wamp.ID]bool{}
+		for _, m := range a.log {
+			switch x := m.(type) {
+			case *wamp.Result:
+				answered[x.Request] = true
+			case *wamp.Error:
+				answered[x.Request] = true
+			}
+		}
+		for _, req := range a.metaReqs {
+			if !answered[req] {
+				return fail("session %d never got an answer to its meta procedure call (request %d) although every session kept reading", a.idx, req)
+			}
+		}
+		if len(a.metaReqs) > 0 {
+			v.Stats.Label("meta_calls_answered")
+		}
+	}
 	multi := false
 	for _, ps := range producers {
 		if len(ps) >= 2 {
@@ -397,7 +430,10 @@ func execC08(t *testing.T, c *Case, trace bool) Verdict {
 	for _, a := range actors {
 		nmsgs += len(a.log)
 	}
-	v.Stats.Labels = map[string]int{"messages_read": nmsgs}
+	if v.Stats.Labels == nil {
+		v.Stats.Labels = map[string]int{}
+	}
+	v.Stats.Labels["messages_read"] = nmsgs
 	if multi {
 		v.Stats.Label("multi_producer_receiver")
 	}
